@@ -586,3 +586,73 @@ func sectionFields(root interface{}) (out []field) {
 	}
 	return out
 }
+
+// spellings returns the non-canonical spellings of one documented enum value:
+// letter-case variants, surrounding spaces and near-miss spellings.
+func spellings(d string) (out []mutValue) {
+	add := func(class, v string) {
+		if v != d && v != "" {
+			out = append(out, mutValue{Class: class + ":" + d, Value: v})
+		}
+	}
+	add("case-title", strings.ToUpper(d[:1])+d[1:])
+	add("case-upper", strings.ToUpper(d))
+	add("space", " "+d+" ")
+	add("space-after", d+" ")
+	add("typo-short", d[:len(d)-1])
+	add("typo-long", d+d[len(d)-1:])
+	return out
+}
+
+// enumSpellingFields is the spelling operator for the string-valued enums: one
+// pseudo-field per enum property whose values are the non-canonical spellings
+// of its documented values.  For the per-server protocol only the spellings of
+// the server's own protocol are used.
+func enumSpellingFields(fields []field) (out []field) {
+	for _, f := range fields {
+		if f.Kind != "enum" {
+			continue
+		}
+		base, isStr := f.Base.(string)
+		if !isStr {
+			continue
+		}
+		sf := field{Path: f.Path, Kind: "enum", Base: f.Base}
+		for _, d := range enumDomain[f.Path.generic()] {
+			ds := fmt.Sprint(d)
+			if f.Path.lastKey() == "protocol" && ds != base {
+				continue
+			}
+			sf.Values = append(sf.Values, spellings(ds)...)
+		}
+		out = append(out, sf)
+	}
+	return out
+}
+
+// enumDependentCases combines every spelling of an enum with the zero / missing
+// (and, for the KV TTL, just-out-of-range) values of the properties whose
+// constraints depend on it (constraintPairs).
+func enumDependentCases(spell, fields []field) (out [][]mutation) {
+	for _, cp := range constraintPairs {
+		for _, sf := range spell {
+			if sf.Path.generic() != cp[0] {
+				continue
+			}
+			for _, fb := range fields {
+				if fb.Path.generic() != cp[1] || !sameParent(sf.Path, fb.Path) {
+					continue
+				}
+				for _, va := range sf.Values {
+					for _, vb := range fb.Values {
+						switch vb.Class {
+						case "0", "-1", "missing", "consul-min-1", "consul-max+1":
+							out = append(out, []mutation{{Path: sf.Path, Kind: sf.Kind, Value: va}, {Path: fb.Path, Kind: fb.Kind, Value: vb}})
+						}
+					}
+				}
+			}
+		}
+	}
+	return out
+}
